@@ -68,6 +68,7 @@ pub fn len_class(tier: Tier) -> BS<usize> {
         (1, Just(520usize).boxed()),
         (1, (521usize..3000).boxed()),
         (1, Just(10_000usize).boxed()),
+        (1, prop_oneof![Just(10_001usize), 10_001usize..12_000].boxed()),
     ];
     if tier == Tier::Thorough {
         v.push((1, Just(0xffffusize).boxed()));
@@ -99,7 +100,13 @@ pub fn count_class(tier: Tier, max_common: usize) -> BS<usize> {
 // scripts
 
 fn payload(n: usize) -> BS<Vec<u8>> {
-    bytes(n)
+    // mostly fresh bytes; sometimes one of a few fixed payloads, so that the same hash / key occurs
+    // in different templates, coins and runs (anything keyed by the payload alone must still be right)
+    prop_oneof![
+        5 => bytes(n),
+        1 => (0u8..4).prop_map(move |k| (0..n).map(|i| (i as u8).wrapping_mul(37).wrapping_add(k.wrapping_mul(91)).wrapping_add(1)).collect::<Vec<u8>>()),
+    ]
+    .boxed()
 }
 
 pub fn t_p2pk() -> BS<Vec<u8>> {
@@ -169,6 +176,7 @@ pub fn t_multisig_2of3() -> BS<Vec<u8>> {
 
 #[derive(Clone, Copy, Debug, PartialEq, Eq)]
 pub enum PayClass {
+    Whitespace,
     Ascii,
     MultiByte,
     Invalid,
@@ -205,7 +213,9 @@ pub fn opreturn_payload(tier: Tier) -> BS<(PayClass, Vec<u8>)> {
         v[l] = b'y';
         (PayClass::Newline, v)
     });
-    weighted(vec![(5, ascii.boxed()), (3, multi.boxed()), (3, invalid.boxed()), (1, empty.boxed()), (2, newline.boxed())])
+    // payloads made of white space only (they are non-empty and must be printed)
+    let blank = vec(proptest::sample::select(vec![" ", "\t", "\u{3000}", "\u{a0}", "\u{2028}", "\u{b}", "\u{c}", "\u{85}", "\u{feff}"]), 1..6).prop_map(|v| (PayClass::Whitespace, v.concat().into_bytes()));
+    weighted(vec![(5, ascii.boxed()), (3, multi.boxed()), (3, invalid.boxed()), (1, empty.boxed()), (2, newline.boxed()), (1, blank.boxed())])
         .prop_map(|(c, v)| {
             // a payload must not look like a log line ("[hh:mm:ss] LEVEL - target: ")
             let s = String::from_utf8_lossy(&v);
